@@ -121,7 +121,9 @@ CLAIMS = {
           'and emits, for every abstract generator position, a complete conformant document (every usable segment node and node-to-node transition of the map is covered); each is concretised '
           'twice (needed elements only / every situational element filled) under rotating delimiter triples and line-break conventions, plus files holding documents of two different maps, and '
           'validated by the real x12n_document: verdict true, empty error tree, every AK5/IK5 and AK9 = A (T_Accept, TLC). Every walker call of those runs is trace-validated against the '
-          'transcription (T_MapWalk: result node, pops, pushes, error codes in order, counter). Quick: 6 maps; thorough: every loadable indexed map.',
+          'transcription (T_MapWalk: result node, pops, pushes, error codes in order, counter). Quick: 6 maps + every small map; thorough: every loadable indexed map. '
+          'Map dispatch (spec/Driver.tla): TLC checks the ISA/GS/BHT dispatch loop against the definition of the map in force per segment over every envelope history <= 8/10 (+ random to 18/26) on the real '
+          'index, every history is run through x12n_document (map of the node handed to the callback, check_837_lx flag, Map-not-found position) and judged by T_Driver.',
   'note': '"In order" = strict map order; repeat counts capped (2 / 3); values are proposed by the concretiser per element definition (first listed / first fitting external code, type- and '
           'length-shaped literals, qualifier-selected date formats) - a wrong proposal would show as a rejection to investigate, never hidden; maps with undefined data elements or an ISA '
           'version the reader refuses are left to C16; files mixing a 997/999 group with others are not claimed. Trusted: TLC, mapexport, concretiser, recorders in lib/walkcommon.py.',
@@ -186,7 +188,8 @@ CLAIMS = {
           'one tree per instance of the loop cut at each of its first segments, last tree at end of input) and the address of every segment inside its tree (chain of <<child loop id, instance>>, a fresh '
           'instance at every first segment). Conformant documents from TLC DocGen (covering set + longest random deep walks: loops repeating back-to-back, ending their parent or the file, nested in '
           'repeating parents) of 6 maps (thorough: all) are iterated with the real X12ContextReader for no loop id and every segment-anchored loop id they contain, envelope loops included; T_Context (TLC) '
-          'validates per run: no segment lost / duplicated / reordered, content, position in set and source line, grouping, tree root, tree shape.',
+          'validates per run: no segment lost / duplicated / reordered, content, position in set and source line, grouping, tree root, tree shape. '
+          'Map dispatch (spec/Driver.tla, as in C02) is replayed through iter_segments: map of every yielded node, check_837_lx flag, Map-not-found position (T_Driver).',
   'note': 'Placement oracle = the node pyx12 matched in an independent validation run (bound to the walker transcription by C02); map objects are memoised inside the harness process. One recorded '
           'finding (ISA_LOOP trees lack the GS_LOOP level). Trusted: TLC, the tree flattener in lib/c09.py.',
   'technique': 'TLA+ definition of the partition + replay of TLC-generated documents through X12ContextReader for every loop id + TLC trace validation',
